@@ -41,18 +41,19 @@ STUBS = ['F8MetaCntx::F8MetaCntx := shim vf_ctx_ctor: the same member initialisa
          'constructors of the f8Exception family and f8Exception::format<> := no text formatting (the harness observes that an exception is pending; never reached when the properties hold)',
          'SingleLogger::is_loggable := false (logging off)']
 
-def schema_hash(): return file_hash(SCHEMA, repo_hash())
+def schema_hash(schema=None): return file_hash(schema or SCHEMA, repo_hash())
 
-def gen(ctx):
-    """mini.xml -> generated classes, by the f8c of the tree under test (cached by schema + tree hash)"""
-    d = os.path.join(CACHE, 'l3gen_' + schema_hash())
+def gen(ctx, schema=None):
+    """mini.xml (or the schema given) -> generated classes, by the f8c of the tree under test (cached by schema + tree hash)"""
+    schema = schema or SCHEMA
+    d = os.path.join(CACHE, 'l3gen_' + schema_hash(schema))
     if not os.path.exists(os.path.join(d, 'mini_classes.cpp')):
         tmp = d + '.tmp%d' % os.getpid(); shutil.rmtree(tmp, ignore_errors=True); os.makedirs(tmp)
-        r = sh([os.path.join(REPO, 'compiler', 'f8c'), '-sp', 'mini', '-n', 'MINI', '-o', tmp, SCHEMA])
-        if r.returncode != 0 or not os.path.exists(os.path.join(tmp, 'mini_classes.cpp')): raise Broken('f8c failed on schemas/mini.xml:\n' + r.stdout[-2000:])
+        r = sh([os.path.join(REPO, 'compiler', 'f8c'), '-sp', 'mini', '-n', 'MINI', '-o', tmp, schema])
+        if r.returncode != 0 or not os.path.exists(os.path.join(tmp, 'mini_classes.cpp')): raise Broken('f8c failed on schemas/%s:\n' % os.path.basename(schema) + r.stdout[-2000:])
         try: os.rename(tmp, d)
         except OSError: shutil.rmtree(tmp, ignore_errors=True)
-        ctx.say('  [f8c] schemas/mini.xml -> %s' % d)
+        ctx.say('  [f8c] schemas/%s -> %s' % (os.path.basename(schema), d))
     return d
 
 def world(ctx, wrap=True):
@@ -73,17 +74,44 @@ def world(ctx, wrap=True):
     ctx._l3 = info; ctx._l3gen = g
     return info
 
+# ------------------------------------------------------------------ nested groups (extension): second schema schemas/mini2.xml = mini.xml + message List 'E'
+# {12 ListID, group 13 NoOrders {14 OrdNo int mandatory, 15 OrdText, group 16 NoAllocs {17 AllocNo int mandatory, 18 AllocText}}}, compiled by the tree's f8c
+# like mini.xml (same prefix / namespace, its own cache directory) into a second translation l3w2.c; the mini world and its generated code are untouched
+SCHEMA2 = os.path.join(VERIF, 'schemas', 'mini2.xml')
+ROOTS2 = ROOTS + ['vf_group_new2']
+FUN_NEST = ['f8c-generated MINI::List / List::NoOrders / List::NoOrders::NoAllocs constructors, create_group(deep | shallow), create_nested_group',
+            'FIX8::MessageBase::decode_group recursion into the nested group (grp->decode_group(grpbase, ...)), find_add_group(fnum, parent group), GroupBase::create_nested_group']
+def world2(ctx):
+    if getattr(ctx, '_l3_2', None): return ctx._l3_2
+    g = gen(ctx, SCHEMA2)
+    ext = ['-I' + g, '-DVF_FLD_LEN=%d' % FLD, '-DVF_L3_CTX_TWIN', '-DVF_L3_MINI2', '-DVF_L3_SCHEMA=0x%s' % schema_hash(SCHEMA2)[:8]]
+    shim = ctx.build_ir('l3_world.cpp', 'cut', extra=ext)
+    msg = ctx.build_ir(REPO + '/runtime/message.cpp', 'cut', extra=['-DFIX8_MAX_FLD_LENGTH=%d' % FLD])
+    ll = ctx.link_ir([shim, msg], 'l3all2')
+    opts = ['--typed-alloc', '--ptrcmp', '--ptrdiff', '--ptrdiff0']
+    for w in (M_BFENC, M_EXT, M_EXTFW): opts += ['--wrap', w]
+    info = ctx.translate(ll, ROOTS2, 'l3w2.c', stubs={M_CTX: 'st_ctx_ctor', 'strlen': 'st_strlen', M_FNCALL: 'st_fn_msg_call'}, stubfiles=['common.stubs', 'l3.stubs'], models=['cxx.c', 'stubs.c', 'l3_env.c'], opts=opts,
+                         provided=['gmtime_r'])
+    ctx._l3_2 = info; ctx._l3gen2 = g
+    return info
+
 # ------------------------------------------------------------------ shapes
 # field kinds of a shape entry: (component, tag, kind, arg, neg)
 #   component: 'h' header, 'b' body, 'g0'/'g1' group element; kind: int (arg = decimal digits, neg), cint (arg = value), str (arg = length),
 #   data (arg = length; any byte), char, bool, ts (arg: 0 symbolic in the window, 1 the constant 20130304-02:44:30.000), float (arg = precision)
 KIND = dict(int=0, str=1, char=2, bool=3, ts=4, float=5, data=6, cint=7)
-def comp_id(c): return 0 if c == 'h' else 1 if c == 'b' else 2 + int(c[1:])
+def comp_id(c):
+    if c[0] == 'g' and 'n' in c: e, k = c[1:].split('n'); return 10 + 4 * int(e) + int(k)      # 'g1n0': nested element 0 of outer element 1
+    return 0 if c == 'h' else 1 if c == 'b' else 2 + int(c[1:])
 
 def shape_header(ctx, name, msg, fields, nel=0):
     """write shape_<name>.h into the scratch dir; fields in INSERTION order"""
     rows = ', '.join('{%d,%d,%d,%d,%d}' % (comp_id(c), tag, KIND[k], arg, 1 if neg else 0) for (c, tag, k, arg, neg) in fields)
     txt = '#define L3_MSG %d\n#define L3_NF %d\n#define L3_NEL %d\nstatic const struct l3_fd L3_F[L3_NF] = { %s };\n' % (msg, len(fields), nel, rows)
+    if name in NEST:
+        nn = NEST[name]; assert len(nn) == nel and max(nn) <= 2
+        txt += '#define L3_NEST 1\n#define L3_GTAG 13\n#define L3_NTAG 16\nstatic const int L3_NN[L3_NEL] = { %s };\n' % ', '.join(str(x) for x in nn)
+        if 0 in nn: txt += '#define L3_NN_HAS0 1\n'
     p = os.path.join(ctx.work, 'shape_%s.h' % name); open(p, 'w').write(txt)
     return p
 
@@ -94,6 +122,7 @@ def describe(fields, nel):
              'bool': 'symbolic Boolean', 'ts': 'symbolic instant' if arg == 0 else 'fixed instant', 'float': 'symbolic float, precision %d' % arg}[k]
         return '%s:%d=%s' % (c, tag, v)
     return 'insertion order [%s]; %d group element(s)' % (', '.join(one(f) for f in fields), nel)
+MSGNAME = {0: 'Heartbeat', 1: 'Order', 2: 'List (schemas/mini2.xml)'}
 
 def unwindset(ntok=24, msglen=170):
     us = ['vf_copy.0:%d' % (MAXCOPY + 2), 'x_strlen.0:%d' % (FLD + 2), 'x_strcmp.0:12', 'vf_ti_match.0:80',
@@ -119,8 +148,16 @@ SHAPES = {
     'group2':  (1, hdr() + [('b', 33, 'cint', 2, 0), ('b', 11, 'str', 1, 0), ('g0', 58, 'str', 1, 0), ('g0', 36, 'int', 1, 0), ('g1', 36, 'int', 3, 1)], 2),
     'bigint':  (1, hdr(seq=(10, 0)) + [('b', 11, 'str', 3, 0), ('b', 38, 'int', 10, 1)], 0),
     'ts2':     (1, hdr(ts=0) + [('b', 11, 'str', 1, 0), ('b', 60, 'ts', 0, 0)], 0),
+    # message 2 = List of schemas/mini2.xml; nested element counts per outer element in NEST; component 'g<e>n<k>' = nested element k of outer element e
+    'nested1': (2, hdr() + [('b', 12, 'str', 1, 0), ('b', 13, 'cint', 2, 0), ('g0', 14, 'int', 1, 0), ('g1', 14, 'int', 2, 1), ('g1', 16, 'cint', 1, 0), ('g1n0', 17, 'int', 2, 0), ('g1n0', 18, 'str', 2, 0)], 2),
+    'nested0': (2, hdr() + [('b', 12, 'str', 1, 0), ('b', 13, 'cint', 2, 0), ('g0', 14, 'int', 1, 0), ('g1', 14, 'int', 1, 0), ('g1', 16, 'cint', 1, 0), ('g1n0', 17, 'int', 2, 1)], 2),
+    'nested2': (2, hdr() + [('b', 13, 'cint', 2, 0), ('b', 12, 'str', 2, 0), ('g0', 15, 'str', 1, 0), ('g0', 14, 'int', 3, 0), ('g1', 16, 'cint', 2, 0), ('g1', 14, 'int', 1, 0),
+                            ('g1n1', 17, 'int', 3, 1), ('g1n0', 18, 'str', 1, 0), ('g1n0', 17, 'int', 1, 0)], 2),
+    'nested_f': (2, hdr() + [('b', 12, 'str', 1, 0), ('b', 13, 'cint', 2, 0), ('g0', 14, 'int', 1, 0), ('g0', 16, 'cint', 1, 0), ('g0n0', 17, 'int', 1, 0), ('g1', 14, 'int', 2, 1), ('g1', 16, 'cint', 1, 0),
+                             ('g1n0', 17, 'int', 2, 0), ('g1n0', 18, 'str', 2, 0)], 2),
     'all':     (1, [('b', 60, 'ts', 1, 0), ('b', 62, 'data', 1, 0), ('b', 61, 'cint', 1, 0), ('b', 43, 'bool', 0, 0), ('b', 38, 'int', 1, 0), ('b', 54, 'char', 0, 0), ('b', 11, 'str', 1, 0)] + hdr(order=[1, 3, 0, 2]), 0),
 }
+NEST = {'nested0': [0, 1], 'nested1': [0, 1], 'nested2': [0, 2], 'nested_f': [1, 1]}
 
 def us_main(n=12, cap=170): return ['main.%d:%d' % (i, cap + 2) for i in range(n)] + ['same_bytes.0:%d' % (cap + 2), 'l3_check_wire.2:%d' % (cap + 2), 'st_calc_chksum.0:%d' % (cap + 2)]
 
@@ -135,7 +172,7 @@ def harness(ctx, name, cfile, shape, defs=(), *, functions=(), desc='', tier='qu
                 functions=FUN_BUILD + list(functions), stubs=STUBS, tier=tier, desc=desc,
                 bounds='message %s, %s; ints over their whole digit class (sign x number of decimal digits), string bytes any but SOH/NUL, data bytes any%s; FIX8_MAX_FLD_LENGTH scaled to %d; '
                        'CBMC memory-safety instrumentation off (memory safety of the codec is C03)%s'
-                       % ('Order' if msg else 'Heartbeat', describe(fields, nel), '', FLD, extra_bounds))
+                       % (MSGNAME[msg], describe(fields, nel) + ('; nested group elements per outer element %s' % NEST[shape] if shape in NEST else ''), '', FLD, extra_bounds))
     h.shape = shape
     return ctx.add(h)
 
@@ -143,6 +180,12 @@ def replay_exe(ctx):
     g = gen(ctx)
     # runtime/message.cpp of the tree under test is compiled into the driver (its definitions take precedence over libfix8.so's)
     return ctx.native('l3replay', ['replay/l3_replay.cpp', REPO + '/runtime/message.cpp'], flags=('-O1', '-g', '-fsanitize=address,undefined', '-fno-sanitize=alignment,vptr', '-fno-access-control', '-I' + g, '-DVF_L3_SCHEMA=0x%s' % schema_hash()[:8]),
+                      libs=['-L' + REPO + '/runtime/.libs', '-lfix8', '-Wl,-rpath,' + REPO + '/runtime/.libs'])
+
+def replay_exe2(ctx):
+    """the same driver over the natively compiled f8c output for schemas/mini2.xml (nested shapes)"""
+    g = gen(ctx, SCHEMA2)
+    return ctx.native('l3replay2', ['replay/l3_replay.cpp', REPO + '/runtime/message.cpp'], flags=('-O1', '-g', '-fsanitize=address,undefined', '-fno-sanitize=alignment,vptr', '-fno-access-control', '-I' + g, '-DVF_L3_MINI2', '-DVF_L3_SCHEMA=0x%s' % schema_hash(SCHEMA2)[:8]),
                       libs=['-L' + REPO + '/runtime/.libs', '-lfix8', '-Wl,-rpath,' + REPO + '/runtime/.libs'])
 
 def cx_args(c, shape):
@@ -166,12 +209,12 @@ def cx_args(c, shape):
         elif kind == 'char': out.append('%d:%d:c:%d' % (ci, tag, _s8(arr('cx_chr', i))))
         elif kind == 'bool': out.append('%d:%d:b:%d' % (ci, tag, int(arr('cx_bool', i)) & 1))
         elif kind == 'ts': out.append('%d:%d:t:%d' % (ci, tag, int(arr('cx_ticks', i)) if arg == 0 or arr('cx_ticks', i) else 1362365070000000000))
-    return [str(msg), str(nel)] + out
+    return [str(msg), str(nel)] + out + (['N:%d:%d' % (e, n) for e, n in enumerate(NEST[shape])] if shape in NEST else [])
 def _s32(v): v = int(v) & 0xffffffff; return v - (1 << 32) if v >> 31 else v
 def _s8(v): v = int(v) & 0xff; return v - 256 if v >> 7 else v
 
-def run_replay(ctx, mode, args):
-    r = sh([replay_exe(ctx), mode] + list(args), env=dict(os.environ, ASAN_OPTIONS='detect_leaks=0:abort_on_error=0', UBSAN_OPTIONS='halt_on_error=1:print_stacktrace=0'))
+def run_replay(ctx, mode, args, exe=None):
+    r = sh([exe or replay_exe(ctx), mode] + list(args), env=dict(os.environ, ASAN_OPTIONS='detect_leaks=0:abort_on_error=0', UBSAN_OPTIONS='halt_on_error=1:print_stacktrace=0'))
     return r.returncode, r.stdout
 
 def wire_problem(e1, shape, c):
@@ -204,6 +247,13 @@ def wire_problem(e1, shape, c):
     if int(tags[-1][1]) != sum(raw[:tags[-1][2]]) & 255: return 'CheckSum %r is not the byte sum %d' % (tags[-1][1], sum(raw[:tags[-1][2]]) & 255)
     posh = [34, 49, 56, 52]; posb = [11, 54, 38, 44, 43, 60, 61, 62, 33] if msg else [63]; posg = [36, 58]
     want = []
+    if shape in NEST:      # List of schemas/mini2.xml: 12, 13, outer element {14, 15, 16 {17, 18}*}*
+        have = lambda comp, t: any(f[0] == comp and f[1] == t for f in fields)
+        want = [t for t in posh if have('h', t)] + [t for t in (12, 13) if have('b', t)]
+        for e in range(nel):
+            want += [t for t in (14, 15, 16) if have('g%d' % e, t)]
+            for k in range(NEST[shape][e]): want += [t for t in (17, 18) if have('g%dn%d' % (e, k), t)]
+        posh = []; posb = []
     for comp, tab in (('h', posh), ('b', posb)):
         for t in tab:
             if any(f[0] == comp and f[1] == t for f in fields):
